@@ -452,3 +452,34 @@ Lemma failure_results_ignored : forall r f p,
   model (Req r SKeep f false p) = model (Req r SStd f false p) /\
   model (Req r SKeep f true p) = model (Req r SStd f true p).
 Proof. intros r f p. split; reflexivity. Qed.
+
+(* ---- revocation: every value RevokeToken can fail with has a status ---- *)
+Definition revocation_resp (kd : kind) : resp :=
+  R (if is_server (dcode kd) then K5xx else K4xx) (code_str (dcode kd)) [].
+
+Lemma revocation_answers : forall r sv c t hint,
+  answers_with MRevokeToken revocation_resp (handler r sv (FRevoke c t hint)).
+Proof.
+  intros r sv c t hint. destruct r, sv, c, t, hint; cbv -[revocation_resp dcode code_str is_server];
+    repeat split; intros; try discriminate; reflexivity.
+Qed.
+
+Lemma revocation_mapping : forall r sv c t hint p kd rest,
+  faults p (handler r sv (FRevoke c t hint)) = (MRevokeToken, kd) :: rest ->
+  let a := answer p (handler r sv (FRevoke c t hint)) in
+  (r_cls a = K4xx \/ r_cls a = K5xx) /\ r_creds a = [] /\ r_err a = code_str (dcode kd) /\
+  (r_cls a = K5xx <-> dcode kd = EServerError).
+Proof.
+  intros r sv c t hint p kd rest Hf a. subst a.
+  rewrite (answers_with_run _ _ _ (revocation_answers r sv c t hint) p kd rest Hf).
+  unfold revocation_resp. cbn [r_cls r_creds r_err].
+  destruct (dcode kd); cbn; repeat split; auto; intros H; discriminate H.
+Qed.
+
+Lemma revocation_mapping_nonvacuous :
+  exists r sv c t hint p kd rest,
+    faults p (handler r sv (FRevoke c t hint)) = (MRevokeToken, kd) :: rest /\ dcode kd = EAccessDenied.
+Proof.
+  exists RProvider, SStd, Web, RevAccess, true, (PAt 2 (K (BOidc EAccessDenied false) true)),
+    (K (BOidc EAccessDenied false) true), []. split; reflexivity.
+Qed.
